@@ -10,7 +10,6 @@ import (
 	"path/filepath"
 	"strings"
 
-	"github.com/JunNishimura/Goit/internal/file"
 	"github.com/JunNishimura/Goit/internal/object"
 	"github.com/JunNishimura/Goit/internal/store"
 	"github.com/spf13/cobra"
@@ -135,134 +134,77 @@ var restoreCmd = &cobra.Command{
 				return fmt.Errorf("fail to get tree: %w", err)
 			}
 
+			// get targets
+			// all args are validated before restoring anything
+			var targets []string
 			for _, arg := range args {
-				argAbsPath, err := filepath.Abs(arg)
-				if err != nil {
-					return fmt.Errorf("fail to get arg abs path: %w", err)
-				}
-				f, err := os.Stat(argAbsPath)
-				if os.IsNotExist(err) { // even if the file is not found, the file might be the deleted file
-					// get node
-					cleanedArg := filepath.Clean(arg)
-					cleanedArg = strings.ReplaceAll(cleanedArg, `\`, "/")
-					node, isNodeFound := object.GetNode(tree.Children, cleanedArg)
-					if !isNodeFound {
-						return fmt.Errorf("error: pathspec '%s' did not match any file(s) known to goit", arg)
-					}
+				cleanedArg := filepath.Clean(arg)
+				cleanedArg = strings.ReplaceAll(cleanedArg, `\`, "/")
 
-					// check if the arg is dir or not
-					if len(node.Children) > 0 { // node is directory
-						paths := node.GetPaths()
-
-						for _, path := range paths {
-							if err := restoreIndex(client.RootGoitPath, path, client.Idx, tree); err != nil {
-								return err
-							}
-						}
-					} else { // node is a file
-						if err := restoreIndex(client.RootGoitPath, cleanedArg, client.Idx, tree); err != nil {
-							return err
-						}
-					}
-
+				_, _, isRegistered := client.Idx.GetEntry([]byte(cleanedArg))
+				node, isNodeFound := object.GetNode(tree.Children, cleanedArg)
+				if isRegistered || (isNodeFound && len(node.Children) == 0) { // file
+					targets = append(targets, cleanedArg)
 					continue
 				}
 
-				if f.IsDir() { // directory
-					filePaths, err := file.GetFilePathsUnderDirectory(argAbsPath)
-					if err != nil {
-						return fmt.Errorf("fail to get file path under directory: %w", err)
+				// directory
+				var paths []string
+				isAdded := make(map[string]struct{})
+				for _, entry := range client.Idx.GetEntriesByDirectory(cleanedArg) {
+					paths = append(paths, string(entry.Path))
+					isAdded[string(entry.Path)] = struct{}{}
+				}
+				if isNodeFound {
+					// node.GetPaths returns paths which start with the node name
+					// so, add the parent directory of the node
+					var parentDir string
+					if pos := strings.LastIndex(cleanedArg, "/"); pos >= 0 {
+						parentDir = cleanedArg[:pos+1]
 					}
-					for _, filePath := range filePaths {
-						curPath, err := os.Getwd()
-						if err != nil {
-							return fmt.Errorf("fail to get current directory: %w", err)
+					for _, nodePath := range node.GetPaths() {
+						path := parentDir + nodePath
+						if _, ok := isAdded[path]; !ok {
+							paths = append(paths, path)
+							isAdded[path] = struct{}{}
 						}
-						relPath, err := filepath.Rel(curPath, filePath)
-						if err != nil {
-							return fmt.Errorf("fail to get relative path: %w", err)
-						}
-						cleanedRelPath := strings.ReplaceAll(relPath, `\`, "/")
+					}
+				}
+				if len(paths) == 0 {
+					return fmt.Errorf("error: pathspec '%s' did not match any file(s) known to goit", arg)
+				}
+				targets = append(targets, paths...)
+			}
 
-						// restore index
-						if err := restoreIndex(client.RootGoitPath, cleanedRelPath, client.Idx, tree); err != nil {
-							return err
-						}
-					}
-				} else { // file
-					cleanedArg := filepath.Clean(arg)
-					cleanedArg = strings.ReplaceAll(cleanedArg, `\`, "/")
-
-					// restore index
-					if err := restoreIndex(client.RootGoitPath, cleanedArg, client.Idx, tree); err != nil {
-						return err
-					}
+			// restore index
+			for _, target := range targets {
+				if err := restoreIndex(client.RootGoitPath, target, client.Idx, tree); err != nil {
+					return err
 				}
 			}
 		} else {
-			// execute restore working directory
+			// get targets
+			// all args are validated before restoring anything
+			var targets []string
 			for _, arg := range args {
-				argAbsPath, err := filepath.Abs(arg)
-				if err != nil {
-					return fmt.Errorf("fail to get arg abs path: %w", err)
+				cleanedArg := filepath.Clean(arg)
+				cleanedArg = strings.ReplaceAll(cleanedArg, `\`, "/")
+
+				if _, _, isRegistered := client.Idx.GetEntry([]byte(cleanedArg)); isRegistered { // file
+					targets = append(targets, cleanedArg)
+				} else if client.Idx.IsRegisteredAsDirectory(cleanedArg) { // directory
+					for _, entry := range client.Idx.GetEntriesByDirectory(cleanedArg) {
+						targets = append(targets, string(entry.Path))
+					}
+				} else {
+					return fmt.Errorf("error: pathspec '%s' did not match any file(s) known to goit", arg)
 				}
-				f, err := os.Stat(argAbsPath)
-				if os.IsNotExist(err) {
-					// check if the arg is registered in the index
-					cleanedArg := filepath.Clean(arg)
-					cleanedArg = strings.ReplaceAll(cleanedArg, `\`, "/")
-					_, _, isRegistered := client.Idx.GetEntry([]byte(cleanedArg))
-					isRegisteredAsDir := client.Idx.IsRegisteredAsDirectory(cleanedArg)
+			}
 
-					if !(isRegistered || isRegisteredAsDir) {
-						return fmt.Errorf("error: pathspec '%s' did not match any file(s) known to goit", arg)
-					}
-
-					if isRegisteredAsDir {
-						entries := client.Idx.GetEntriesByDirectory(cleanedArg)
-						for _, entry := range entries {
-							if err := restoreWorkingDirectory(client.RootGoitPath, string(entry.Path), client.Idx); err != nil {
-								return err
-							}
-						}
-					} else {
-						if err := restoreWorkingDirectory(client.RootGoitPath, cleanedArg, client.Idx); err != nil {
-							return err
-						}
-					}
-
-					continue
-				}
-
-				if f.IsDir() { // directory
-					filePaths, err := file.GetFilePathsUnderDirectory(argAbsPath)
-					if err != nil {
-						return fmt.Errorf("fail to get file path under directory: %w", err)
-					}
-					for _, filePath := range filePaths {
-						curPath, err := os.Getwd()
-						if err != nil {
-							return fmt.Errorf("fail to get current directory: %w", err)
-						}
-						relPath, err := filepath.Rel(curPath, filePath)
-						if err != nil {
-							return fmt.Errorf("fail to get relative path: %w", err)
-						}
-						cleanedRelPath := strings.ReplaceAll(relPath, `\`, "/")
-
-						// restore working directory
-						if err := restoreWorkingDirectory(client.RootGoitPath, cleanedRelPath, client.Idx); err != nil {
-							return err
-						}
-					}
-				} else { // file
-					cleanedArg := filepath.Clean(arg)
-					cleanedArg = strings.ReplaceAll(cleanedArg, `\`, "/")
-
-					// restore working directory
-					if err := restoreWorkingDirectory(client.RootGoitPath, cleanedArg, client.Idx); err != nil {
-						return err
-					}
+			// execute restore working directory
+			for _, target := range targets {
+				if err := restoreWorkingDirectory(client.RootGoitPath, target, client.Idx); err != nil {
+					return err
 				}
 			}
 		}
